@@ -41,6 +41,13 @@ def plan(tier, seed):
     return shards
 
 
+def _foreign_labels(cc, table):
+    """Two other country codes: one without a national algorithm, one whose algorithm differs."""
+    without = [c for c in ("CV", "NL", "GB", "AT") if c != cc and c in table and c not in N.COUNTRIES][:1]
+    with_ = [c for c in ("ES", "BE", "IT", "NO") if c != cc and c in table and c in N.COUNTRIES][:1]
+    return without + with_
+
+
 def judge_one(mon: Mon, S, cc, bban, table, tag):
     """One otherwise-valid IBAN of a national-algorithm country through all entry points."""
     text = R.make_iban(cc, bban)
@@ -70,6 +77,16 @@ def judge_one(mon: Mon, S, cc, bban, table, tag):
         ofp = observe(S.IBAN.from_bban, cc, arg, False, True)
         if ofb.ok != o_flag.ok or ofp.ok != o_flag.ok:
             mon.viol(f"from_bban_with_flag_disagrees:{form}", w, o_flag.brief(), [ofb.brief(), ofp.brief()])
+    # a BBAN object with this text but labelled with another country (one without / one with another algorithm)
+    for other in _foreign_labels(cc, table):
+        off = observe(S.IBAN.from_bban, cc, S.BBAN(other, bban), validate_bban=True)
+        mon.tally("foreign_bban_object_with_flag")
+        if off.ok != o_flag.ok:
+            mon.viol("from_bban_with_flag_disagrees:BBAN_object_of_other_country", {**w, "bban_object_country": other}, o_flag.brief(), off.brief())
+        elif off.ok:
+            ov2 = observe(off.value.validate, validate_bban=True)
+            if not ov2.ok or str(off.value) != text:
+                mon.viol("from_bban_with_flag_disagrees:BBAN_object_of_other_country:validate_again", {**w, "bban_object_country": other}, text, [str(off.value), ov2.brief()])
     judge.call_forms_agree(mon, "iban", text, True, o_flag, w)
     if o_bb.ok and o_bb.value is not True:
         mon.viol("bban_check_success_not_true", w, True, o_bb.brief())
